@@ -207,3 +207,47 @@ Definition rewrite_tokens (rs : list rule) : list Z :=
 
 Definition judge_rewrite (x : list rule * list Z) : Z :=
   if list_eqb Z.eqb (rewrite_tokens (fst x)) (snd x) then 0 else 1.
+
+(* ======== strengthened after seeding (notes/C02.md) ========
+   (1) model_tokens_all: the model's facts INCLUDING the internal relations, for the
+       hash-collision filter of the python side (known finding F8 is about hash-equal
+       facts in one store; the confusable-constant stream must not contain that trigger).
+   (2) recursion through an aggregation edge: the library's way of guaranteeing "the body
+       is solved over the completed fixpoint of everything it depends on" is to refuse such
+       a program (analysis.Stratify). judge_cyc takes the program, the number of runs that
+       were evaluated instead of refused and one store left by such a run. *)
+From MV Require Export Datalog.AggCycle.
+
+Definition model_tokens_all (c : case) : list Z := Run.C01.outcome_tokens (run_model c).
+
+(* every plain rule's one-step consequences over G are in G *)
+Definition closed_plain (P : list rule) (G : list fact) : option bool :=
+  match flat_map_opt (fun r => eval_clause G (sel_all G) (r_clause r)) (filter is_plain P) with
+  | Some fs => Some (subset fs G)
+  | None => None
+  end.
+
+(* what is wrong with a store left by an evaluated cyclic program
+   1 = not closed under the plain rules: the relation the aggregate was taken over is not
+       the completed one            2 = closed, but the observer rejects the aggregates
+   3 = closed and the observer accepts (the cycle never fired)      7 = could not evaluate *)
+Definition cyc_detail (c : case) : Z :=
+  match c_obs c with
+  | OFacts G =>
+      match closed_plain (c_prog c) G with
+      | Some false => 1
+      | Some true => match observe c G with Some false => 2 | Some true => 3 | None => 7 end
+      | None => 7
+      end
+  | _ => 7
+  end.
+
+(* 0 = the program has an aggregation edge on a cycle and every run refused it
+   2 = it has one and at least one run evaluated it (property violated: no evaluation by
+       strata can have the body complete before the aggregate, AggCycleProofs)
+   9 = the program has no such cycle (generator error, nothing is claimed) *)
+Definition judge_cyc (x : case * Z) : Z :=
+  if negb (agg_in_cycle (c_prog (fst x))) then 9
+  else if snd x =? 0 then 0 else 2.
+
+Definition judge_cyc_detail (x : case * Z) : Z := cyc_detail (fst x).
